@@ -61,7 +61,9 @@ func (g *gen) time() int {
 
 func (g *gen) query() Query {
 	g.tr = nil
-	switch g.pick(5) {
+	switch g.pick(6) {
+	case 5:
+		g.nodeTypeFamily()
 	case 4:
 		if len(g.refAttrs) == 0 || g.classic {
 			g.constraint(2+g.pick(3), false)
@@ -130,6 +132,49 @@ func (g *gen) inSetFamily() {
 		g.tr[j-1] = Node{K: "not", A: inset(leaf)}
 	} else {
 		n.B = inset(leaf)
+	}
+	g.tr[i-1] = n
+}
+
+// nodeTypeFamily: permanode-only trees in which camliNodeType atoms sit under every logical operator (and, or, xor,
+// not, nested): the planner derives the "typed permanode" candidate source from them (matchesPermanodeTypes), and
+// only and / or may contribute types.
+func (g *gen) nodeTypeFamily() {
+	nodeType := func() int {
+		i := g.alloc()
+		vals := []string{"foo", "bar", "foo", "nosuchtype"}
+		v := g.wf.lookupValue(vals[g.pick(len(vals))])
+		if v == 0 && len(g.vids) > 0 {
+			v = g.vids[g.pick(len(g.vids))]
+		}
+		g.tr[i-1] = Node{K: "pn", S: "camliNodeType", V: v}
+		return i
+	}
+	var sub func(depth int) int
+	sub = func(depth int) int {
+		if depth == 0 || g.chance(3) {
+			if g.chance(3) {
+				return g.pnish()
+			}
+			return nodeType()
+		}
+		i := g.alloc()
+		n := Node{K: []string{"not", "xor", "or", "and", "not", "xor"}[g.pick(6)]}
+		n.A = sub(depth - 1)
+		if n.K != "not" {
+			n.B = sub(depth - 1)
+		}
+		g.tr[i-1] = n
+		return i
+	}
+	i := g.alloc()
+	n := Node{K: "and"}
+	if g.chance(2) {
+		n.A = g.pnish()
+		n.B = sub(1 + g.pick(2))
+	} else {
+		n.A = sub(1 + g.pick(2))
+		n.B = g.pnish()
 	}
 	g.tr[i-1] = n
 }
